@@ -68,13 +68,32 @@ def verbatim_docs(m, rng):
                 for i, l in enumerate(x['lines']):
                     if l == '' and rng.random() < 0.7: lines[i] = rng.choice(['', '', x['ind'], ' ']); n[0] += 1
                 if rng.random() < 0.5: lines.insert(rng.randint(0, len(lines)), rng.choice(['', '', x['ind']])); n[0] += 1
-                x['lines'] = lines; x['leader'] = False
+                r = rng.random()       # untidy blocks: the closing line deeper than the body, or one body line deeper than the rest
+                if r < 0.3: x['ind'] = x['ind'] + rng.choice(['  ', '\t', ' '])
+                elif r < 0.45: i = rng.randrange(len(lines)); lines[i] = rng.choice(['  ', '\t']) + lines[i]
+                x['lines'] = lines; x['leader'] = False; x['verbatim'] = True
             else:
                 for v in x.values(): rec(v)
         elif isinstance(x, list):
             for v in x: rec(v)
     rec(m)
     return m, n[0]
+
+
+def reindent_verbatim(m, prefix):
+    """every verbatim doccomment block moved to the right as a whole (opening line, body lines that are not empty, closing line)"""
+    import copy
+    m = copy.deepcopy(m)
+    def rec(x):
+        if isinstance(x, dict):
+            if x.get('verbatim'):
+                x['ind'] = prefix + x['ind']; x['lines'] = [prefix + l if l != '' else l for l in x['lines']]
+            else:
+                for v in x.values(): rec(v)
+        elif isinstance(x, list):
+            for v in x: rec(v)
+    rec(m)
+    return m
 
 
 def family_suite(seed, count, k, out, drv, budget_s=None):
@@ -94,7 +113,8 @@ def family_suite(seed, count, k, out, drv, budget_s=None):
             srcs.append(srcs[1].replace('\r\n', '\n').replace('\n', '\r\n'))      # CRLF conversion of the mild layout
             vm, nblank = verbatim_docs(variants[1], random.Random(f"C04/{seed}/{n}/verb"))
             vsrc = drv.run([dict(op='render', module=vm)])[0]['src'].replace('\r\n', '\n')
-            srcs += [vsrc, vsrc.replace('\n', '\r\n')]; out.dist['verbatim-docs:empty-lines' if nblank else 'verbatim-docs:none'] += 1
+            rsrc = drv.run([dict(op='render', module=reindent_verbatim(vm, random.Random(f"C04/{seed}/{n}/re").choice(['  ', '\t', '    '])))])[0]['src'].replace('\r\n', '\n')
+            srcs += [vsrc, vsrc.replace('\n', '\r\n'), rsrc]; out.dist['verbatim-docs:empty-lines' if nblank else 'verbatim-docs:none'] += 1
             models = drv.run([dict(op='pipeline', cfg=suites.model_cfg(variants[0], cfg), headers=['#'], title='T', mod='M', src=s) for s in srcs])
             reals = [impl.real_pipeline(sb, s, impl.make_settings(cfg, headers=['#']), 'T', 'M') for s in srcs]
             out.traces_validated += len(srcs)
@@ -128,8 +148,12 @@ def family_suite(seed, count, k, out, drv, budget_s=None):
                     out.violations.append(dict(suite='layout-families', key=key, module=vm, cfg=cfg, source=srcs[k + 2], base_source=srcs[k + 1], crlf=True,
                                                detail=dict(kind='CRLF conversion changes more than line endings and blank lines (doccomments with empty lines)',
                                                            lf=reals[k + 1]['rst'], crlf=cr.get('rst', cr)), model_agrees=models[k + 2].get('rst') == cr.get('rst')))
+            if reals[k + 3].get('rst') != reals[k + 1].get('rst') or ('err' in reals[k + 3]) != ('err' in reals[k + 1]):
+                out.violations.append(dict(suite='layout-families', key=key, module=vm, cfg=cfg, source=srcs[k + 3], base_source=srcs[k + 1],
+                                           detail=dict(kind='moving a doccomment block to the right as a whole changes the page', base=reals[k + 1].get('rst', reals[k + 1]),
+                                                       real=reals[k + 3].get('rst', reals[k + 3])), model_agrees=models[k + 3].get('rst') == reals[k + 3].get('rst')))
             done += 1
-    out.suites.append(dict(name='layout-families', modules=done, layouts_each=k + 3))
+    out.suites.append(dict(name='layout-families', modules=done, layouts_each=k + 4))
 
 
 def family_replay(v, drv):
@@ -342,6 +366,15 @@ def fault_suite(seed, n_modules, out, drv, budget_s=None, pairs=False, max_len=5
                     faulty.append((pos, f, 'ins', src[:pos] + f + src[pos:]))
                 if pos < len(src) and src[pos] in '()"' and not inside(pos) and not any(a <= pos < b for a, b in spans):
                     faulty.append((pos, src[pos], 'del', src[:pos] + src[pos + 1:]))
+            # a file cut off at any point (alone, or with another well-formed piece pasted behind it), and two closing parentheses lost
+            tail = '\n#[[[\n# pasted\n#]]\nfunction(pasted_fn a)\nendfunction()\n'
+            for pos in range(1, len(src)):
+                if inside(pos): continue
+                faulty.append((pos, 'EOF', 'trunc', src[:pos]))
+                if src[pos - 1] in '( \n': faulty.append((pos, 'EOF+doc', 'trunc', src[:pos] + tail))
+            closes = [i for i, ch in enumerate(src) if ch == ')' and not any(a <= i < b for a, b in spans)]
+            for a_, b_ in zip(closes, closes[1:]):
+                faulty.append(((a_, b_), '))', 'del2', src[:a_] + src[a_ + 1:b_] + src[b_ + 1:]))
             if pairs:
                 singles = [x for x in faulty if x[2] == 'ins']
                 for _ in range(len(singles) // 10):
@@ -356,7 +389,7 @@ def fault_suite(seed, n_modules, out, drv, budget_s=None, pairs=False, max_len=5
                 key = ('C06', seed, n, pos, f, mode)
                 m_ok = 'rst' in mo; r_ok = 'rst' in real
                 out.dist['both-reject' if not m_ok and not r_ok else ('both-accept' if m_ok and r_ok else 'differ')] += 1
-                out.dist['fault:' + (f if isinstance(f, str) else 'pair')] += 1
+                out.dist['fault:' + (f if isinstance(f, str) and mode != 'pair' else 'pair')] += 1
                 out.note_case(key, not m_ok)
                 if m_ok != r_ok or (m_ok and mo['rst'] != real['rst']):
                     out.disagreements.append(dict(suite='fault-injection', key=key, source=s, detail=dict(kind='accept/reject', model=mo, real=real)))
